@@ -99,6 +99,9 @@ def run(ck, F):
     ck.check(R_sw, 'known_words', not _strays, f'object(s) of {contracts.short(_W)} outside {_kw["q"]}: ' + '; '.join(f'{w} [{l}]' for w, l in _strays[:4]),
              loc=(_strays[0][1] if _strays else _kw['loc']))
     _eqrule.check_equalities(ck, F, 'C10')
+    # a basic name maps to its set however the String that spells it was obtained: the reserved spelling is recognised by content
+    import borrow as _borrow
+    _borrow.borrow(ck, F, 'C04', 'C10', {'reserved-words-first', 'spelling-by-content'})
     if _strays:
         return          # the tables cannot be read as rows of reserved words: reported above
     tables = {}
